@@ -19,10 +19,13 @@ from mc.engine import jsonable, detuple
 
 
 def load_findings(prop):
-    path = os.path.join(ROOT, 'known_findings.json')
-    if not os.path.exists(path): return []
-    with open(path) as f: data = json.load(f)
-    return [e for e in data.get('findings', []) if e.get('property') == prop and e.get('status') == 'open']
+    out = []
+    # VERIF_EXTRA_FINDINGS is a development aid (to try out a proposed entry); registered commands never set it
+    for path in [os.path.join(ROOT, 'known_findings.json')] + [p for p in os.environ.get('VERIF_EXTRA_FINDINGS', '').split(':') if p]:
+        if not os.path.exists(path): continue
+        with open(path) as f: data = json.load(f)
+        out += [e for e in data.get('findings', []) if e.get('property') == prop and e.get('status') == 'open']
+    return out
 
 
 def load_fixed(prop):
@@ -97,6 +100,9 @@ def main(argv=None):
             return 1
         print('replay: no violation'); return 0
 
+    import thermosteam
+    if not os.path.abspath(thermosteam.__file__).startswith(os.path.abspath(REPO) + os.sep):
+        print(f'HARNESS-ERROR thermosteam imported from {thermosteam.__file__}, expected under {REPO}'); return 2
     findings = load_findings(prop)
     systems = list(mod.SYSTEMS)
     if a.systems:
